@@ -32,5 +32,13 @@ type Void struct{}
 
 // NewHost creates a new extension host.
 func NewHost() *Host {
-	return &Host{Events: &Events{}}
+	events := &Events{}
+
+	// A listener registered under the same name for several after-events is called for one
+	// event at a time, in the order the events were emitted.
+	queues := &serialQueues{}
+	events.AfterMessageDeleted.queues = queues
+	events.AfterMessageStored.queues = queues
+
+	return &Host{Events: events}
 }
